@@ -150,6 +150,8 @@ fn ops_job(job: &Json) -> Json {
     let sg = job["sg"].as_u64().unwrap_or(0) == 1;
     let w = job["w"].as_u64().unwrap();
     let k = job["k"].as_u64().unwrap_or(0);
+    // width of the second operand (long division only: the divisor may have its own width)
+    let wb = job["wb"].as_u64().unwrap_or(w);
     let unary = op == "clip";
     // operands
     let (a, b, sa, sb): (Vec<u128>, Vec<u128>, Vec<u64>, Vec<u64>) = if job["exh"].as_bool().unwrap_or(false) {
@@ -175,14 +177,14 @@ fn ops_job(job: &Json) -> Json {
     };
     let mut rec = json!({"id": job["id"], "op": op, "sg": sg as u64, "w": w, "k": k, "sa": sa, "sb": sb,
         "exh": job["exh"].as_bool().unwrap_or(false) as u64,
-        "enc": if w <= 16 { "int" } else { "bits" }, "a": enc_rows(&a, w), "b": enc_rows(&b, w)});
+        "enc": if w <= 16 { "int" } else { "bits" }, "a": enc_rows(&a, w), "b": enc_rows(&b, wb), "wb": wb});
     let (a2, b2, sa2, sb2, op2) = (a.clone(), b.clone(), sa.clone(), sb.clone(), op.clone());
     let res = guarded(move || {
         let mut types = vec![bit_arr_type(&sa2, w)];
         let mut vals = vec![Value::from_flattened_array(&to_bits(&a2, w), BIT)?];
         if !unary {
-            types.push(bit_arr_type(&sb2, w));
-            vals.push(Value::from_flattened_array(&to_bits(&b2, w), BIT)?);
+            types.push(bit_arr_type(&sb2, wb));
+            vals.push(Value::from_flattened_array(&to_bits(&b2, wb), BIT)?);
         }
         let cop = custom(&op2, sg, k);
         run_graph(types, vals, move |g, ins| g.custom_op(cop, ins))
@@ -235,7 +237,7 @@ fn ops_job(job: &Json) -> Json {
                             // carry: shape so + [1]
                             Ok((so, enc_rows(&from_bits(&x0, w), w), json!(x1.iter().map(|x| *x as u64).collect::<Vec<_>>())))
                         } else {
-                            Ok((so, enc_rows(&from_bits(&x0, w), w), enc_rows(&from_bits(&x1, w), w)))
+                            Ok((so, enc_rows(&from_bits(&x0, w), w), enc_rows(&from_bits(&x1, wb), wb)))
                         }
                     }
                     _ => Err("op".to_owned()),
